@@ -35,7 +35,7 @@ def _is_self_sub(node, container, index_attr):
 
 def ordered_delivery(rep, rule, fn, file, label, deliver, container, counter, keyparam):
     """strict in-order delivery loop (shared shape of Boss.W_received and Boss.D_received_dilate)"""
-    g = build(fn)
+    g = build(fn, split=True)
     dn = g.call_nodes(lambda c: dotted(c.func) == deliver)
     rep.check(rule, "%s delivers through %s" % (label, deliver), bool(dn), site(fn, file), key="%s:%s:no-delivery" % (rule, label))
     if not dn:
@@ -48,8 +48,8 @@ def ordered_delivery(rep, rule, fn, file, label, deliver, container, counter, ke
     rep.check(rule, "%s hands on only self.%s.pop(self.%s): deliveries are indexed by the counter" % (label, container, counter),
               ok, site(fn, file), key="%s:%s:indexed-by-counter" % (rule, label),
               what="%s can deliver a value that is not the buffered entry for the next expected number (out-of-order / gap)" % label)
-    tests = [n for n in g.nodes(lambda s: isinstance(s, (ast.While, ast.If))) if _is_member_test(g.stmt[n].test, counter, container)]
-    unguarded = g.guarded_by(tests, dn, 'T') if tests else dn
+    from ..cfg import in_atom
+    unguarded = g.only_when(dn, in_atom(lambda e: is_self_attr(e, counter), lambda e: is_self_attr(e, container)), True)
     rep.check(rule, "%s: a delivery happens only under `self.%s in self.%s`" % (label, counter, container), not unguarded, site(fn, file),
               key="%s:%s:membership-guard" % (rule, label))
     incs = g.nodes(lambda s: isinstance(s, ast.AugAssign) and is_self_attr(s.target, counter) and isinstance(s.op, ast.Add)
@@ -100,11 +100,12 @@ def r1(tree, prog, rep):
         ok = ok and incs[0] not in g.reach([y for (y, l) in g.succ[incs[0]]])
         var = g.stmt[reads[0]].targets[0].id
         c = [c for c in ast.walk(g.stmt[sends[0]]) if isinstance(c, ast.Call) and dotted(c.func) == "self._S.send"][0]
+        from ..astutil import int_to_decimal_str_of, resolve_local
         a0 = c.args[0]
-        fmt_ok = (isinstance(a0, ast.BinOp) and isinstance(a0.op, ast.Mod) and const(a0.left) == "%d" and isinstance(a0.right, ast.Name) and a0.right.id == var) \
-            or (isinstance(a0, ast.Call) and dotted(a0.func) == "str" and isinstance(a0.args[0], ast.Name) and a0.args[0].id == var) \
-            or (isinstance(a0, ast.JoinedStr) and len(a0.values) == 1 and isinstance(a0.values[0], ast.FormattedValue)
-                and isinstance(a0.values[0].value, ast.Name) and a0.values[0].value.id == var)
+        if isinstance(a0, ast.Name) and a0.id != var:
+            a0 = resolve_local(fn, a0)          # phase_name = "%d" % phase
+        iv = int_to_decimal_str_of(a0)
+        fmt_ok = isinstance(iv, ast.Name) and iv.id == var
         ok = ok and fmt_ok and len(local_defs(fn, var)) == 1
         ok = ok and len(c.args) == 2 and isinstance(c.args[1], ast.Name) and c.args[1].id in params(fn) and not local_defs(fn, c.args[1].id)
     rep.check("C03.R1", "Boss.S_send: phase = counter read before the single increment; sends (decimal phase, plaintext parameter)", ok,
@@ -141,11 +142,14 @@ def r2(tree, prog, rep):
 def fifo_queue(tree, rep, rule, prog, cname, attr, append_out, drain_out):
     ci = prog.cls(cname)
     own, foreign = class_writers(tree, cname, attr)
+    is_deque = any(w.kind == "assign" and w.fn in ("__init__", "__attrs_post_init__") and is_empty_ctor(w.value, ("deque",)) for w in own)
     for w in own + foreign:
         ok = w in own and (
-            (w.kind == "assign" and w.fn in ("__init__", "__attrs_post_init__") and is_empty_ctor(w.value, ("list",)))
+            (w.kind == "assign" and w.fn in ("__init__", "__attrs_post_init__") and is_empty_ctor(w.value, ("list", "deque")))
             or (w.kind == "call:append" and w.fn == append_out)
-            or (w.fn == drain_out and (w.kind == "call:clear" or (w.kind in ("setslice", "assign") and is_empty_ctor(w.value, ("list",))))))
+            or (w.fn == drain_out and (w.kind == "call:clear" or (
+                w.kind in ("setslice", "assign") and not (is_deque and w.kind == "setslice")
+                and is_empty_ctor(w.value, ("deque",) if is_deque else ("list",))))))
         rep.check(rule, "%s.%s writer %s is init / append at the tail / clear after draining" % (cname, attr, w.brief()), ok, w.site,
                   key="%s:%s.%s:writer:%s" % (rule, cname, attr, w.brief()),
                   what="%s.%s is modified by %s: queued messages could be reordered, dropped or duplicated" % (cname, attr, w.brief()))
